@@ -257,6 +257,11 @@ def run(prop, seed, budget, ctx):
         failures += ff; fallback_n += fn; distinct |= fd
         for k_, v_ in fh.items(): hist[k_] += v_
         for f in ff: hist["P:" + f["why"][0].split(":")[0]] += 1
+        import corners8
+        c8f_, c8n_, c8d_, c8h_ = corners8.run_part("C04", seed, budget)
+        failures += c8f_; distinct |= c8d_; fallback_n += c8n_
+        for k_, v_ in c8h_.items(): hist[k_] += v_
+        for f in c8f_: hist["P:" + f["why"][0].split(":")[0]] += 1
         import objmodel
         ff, fn, fd, fh = objmodel.run_part("C04", seed, budget)
         failures += ff; fallback_n += fn; distinct |= fd
